@@ -832,6 +832,7 @@ unsafe fn find_block_scalar_end_sse2(input: &[u8], start: usize, min_indent: usi
 ///   unresolved).
 ///
 /// Returns the position of the first terminator, or end of input.
+#[cfg(any(test, feature = "std"))]
 #[target_feature(enable = "avx2")]
 unsafe fn parse_anchor_name_avx2(input: &[u8], start: usize) -> usize {
     let len = input.len();
@@ -932,11 +933,9 @@ pub fn parse_anchor_name(input: &[u8], start: usize) -> usize {
                 return unsafe { parse_anchor_name_avx2(input, start) };
             }
         }
-
-        #[cfg(not(any(test, feature = "std")))]
-        {
-            return unsafe { parse_anchor_name_avx2(input, start) };
-        }
+        // Without `std` there is no runtime detection, and AVX2 is not part of
+        // the x86_64 baseline: fall through to the scalar scan rather than
+        // execute an AVX2 kernel the CPU may not have.
     }
 
     // Fallback to scalar for short names or no SIMD
